@@ -54,7 +54,15 @@ CFG = dict(
                "all describe one logical sequence (try_as_slice sound for every head offset / stride; refuted for the "
                "pre-repair memory-order accessor with a witness); the returned and caller-buffer paths agree for every "
                "add-emit-remove callback (C02_bodies_agree) and every rolling feature is total with one output per input "
-               "(Proofs/Generic.v). All model functions are functions of that logical sequence by construction. The container "
+               "(Proofs/Generic.v). A Polars array as OUTPUT container (Model/PolarsOut.v, after the repair of polars.rs): results "
+               "stored by index go through a staging buffer (all slots null, uset, assume_init -> one chunk); 11 theorems: for "
+               "any store sequence the staged array is slot-by-slot `join` of the generic MaybeUninit buffer (equal when that is "
+               "fully written, null instead of uninitialised memory where not), always of the requested length; hence the five "
+               "index bodies (rolling_apply / _idx / rolling2_apply / _idx / rolling_custom) staged into a Polars array equal the "
+               "generic caller-buffer result for every window >= 1, callback and series (and any window through lift_uninit), "
+               "the slice form equals the default iterator path collected into an array, and every rolling feature staged into "
+               "Polars equals either body collected into Polars. Before the repair the staged path panicked (refuted on "
+               "w=1, xs=[x]: see notes/C07.md). All model functions are functions of that logical sequence by construction. The container "
                "semantics of std/ndarray/Polars are modelled; the tie is the accessor correspondence plus the exhaustive "
                "backend x container x path matrix run on the implementation.",
     level_note="Trusted: Coq kernel; the container models (std VecDeque, ndarray views, Polars chunked arrays are external "
